@@ -4,7 +4,7 @@ digestauth.c  ->  lean/Mhd/Gen/Locks.lean  (lock / shared-field / role table).
 
 For every function of the four files that takes or releases a mutex, touches a field
 of the shared set, joins a thread, blocks in select/poll/epoll_wait, invokes an
-application callback, or (transitively) calls such a function, the table holds the
+application callback, signals the inter-thread channel, or (transitively) calls such a function, the table holds the
 ordered events of its body.  Each event carries the locks *syntactically* held at
 that point, relative to the function entry:
 
@@ -382,6 +382,13 @@ class Walker:
             return st
         if name in JOIN_FUNCS:
             self.emit(st, n, kind="join")
+            return st
+        if name in ("write", "send") and args:
+            # MHD_itc_activate_ (itc, ...): write()/send() on a member of struct MHD_itc_
+            mems = find_all(args[0], lambda x: x.get("kind") == "MemberExpr" and "MHD_itc_" in
+                            ((x.get("inner") or [{}])[0].get("type", {}).get("qualType", "")))
+            if mems:
+                self.emit(st, n, kind="signal")
             return st
         if name in WAIT_FUNCS:
             self.emit(st, n, kind="wait")
@@ -914,7 +921,7 @@ def render(world):
     o.append("inductive Guard where\n  | " + " | ".join(GUARDS) + "\n  deriving DecidableEq, Repr")
     o.append("""inductive Kind where
   | lock (l : Lock) | unlock (l : Lock) | acc (f : Field) (write : Bool)
-  | call (callee : Nat) | callback | join | wait
+  | call (callee : Nat) | callback | join | wait | signal
   deriving DecidableEq, Repr
 /-- one event of a function body; `may`/`must`/`rel`/`relm` are relative to the function entry -/
 structure Ev where
